@@ -571,6 +571,198 @@ fn malformed<F: Backend>(cx: &mut Cx, sub: &mut u64) {
             Shape::<F>::new_float_slice_eval().eval_with_vars(&t, &[1.0, 2.0], &[2.0], &[3.0, 1.0], &vars).is_err()
         });
         case!("bind with a missing variable", { shape.bind(&ShapeVars::<f32>::new()).is_err() });
+        // every way in which x / y / z / a variable array can disagree in length
+        let vkey = match crate::prog::var_by_index(5) {
+            fidget_core::var::Var::V(i) => i,
+            _ => unreachable!(),
+        };
+        for (lx, ly, lz, lv) in [(2usize, 2usize, 1usize, 2usize), (2, 2, 3, 2), (1, 2, 2, 2), (2, 2, 2, 1), (2, 2, 2, 3), (2, 2, 2, 0), (9, 9, 8, 9), (9, 9, 9, 17), (0, 1, 0, 0)] {
+            case!(format!("shape float-slice eval with lengths x={lx} y={ly} z={lz} variable array={lv}"), {
+                let t = shape.ez_float_slice_tape();
+                let mut arrays: ShapeVars<Vec<f32>> = ShapeVars::new();
+                arrays.insert(vkey, vec![1.0; lv]);
+                Shape::<F>::new_float_slice_eval()
+                    .eval_with_var_arrays(&t, &vec![1.0; lx], &vec![2.0; ly], &vec![3.0; lz], &arrays)
+                    .is_err()
+            });
+            case!(format!("shape grad-slice eval with lengths x={lx} y={ly} z={lz} variable array={lv}"), {
+                let t = shape.ez_grad_slice_tape();
+                let g = Grad::new(1.0, 0.0, 0.0, 0.0);
+                let mut arrays: ShapeVars<Vec<Grad>> = ShapeVars::new();
+                arrays.insert(vkey, vec![g; lv]);
+                Shape::<F>::new_grad_slice_eval()
+                    .eval_with_var_arrays(&t, &vec![g; lx], &vec![g; ly], &vec![g; lz], &arrays)
+                    .is_err()
+            });
+        }
+        case!("shape float-slice eval with a missing variable array", {
+            let t = shape.ez_float_slice_tape();
+            let arrays: ShapeVars<Vec<f32>> = ShapeVars::new();
+            Shape::<F>::new_float_slice_eval().eval_with_var_arrays(&t, &[1.0], &[2.0], &[3.0], &arrays).is_err()
+        });
+        case!("BoundShape::try_from a shape with a free variable", {
+            fidget_core::shape::BoundShape::<F, f32>::try_from(shape.clone()).is_err()
+        });
+    }
+}
+
+/// Argument lists that are unusual but VALID: extra arguments beyond the
+/// tape's variables ("it's fine if the caller has given us extra variables"),
+/// on functions with 0, 1 and 3 variables, for every evaluator kind and bulk
+/// lengths below, at and above the SIMD width; constant shapes through the
+/// Shape API.  Each must return normally with the result of the plain call.
+fn generous<F: Backend>(cx: &mut Cx, sub: &mut u64) {
+    let mut progs: Vec<(&str, Prog, usize)> = vec![];
+    let mut p = Prog::default();
+    let c = p.push(POp::Const(2.5));
+    p.roots = vec![c];
+    progs.push(("constant 2.5", p, 0));
+    let mut p = Prog::default();
+    let x = p.push(POp::Var(0));
+    let k = p.push(POp::Const(1.5));
+    let r = p.push(POp::Bin(B::Mul, x, k));
+    p.roots = vec![r];
+    progs.push(("x * 1.5", p, 1));
+    let mut p = Prog::default();
+    let x = p.push(POp::Var(0));
+    let y = p.push(POp::Var(1));
+    let z = p.push(POp::Var(2));
+    let a = p.push(POp::Bin(B::Add, x, y));
+    let r = p.push(POp::Bin(B::Min, a, z));
+    p.roots = vec![r];
+    progs.push(("min(x + y, z)", p, 3));
+    for (name, p, nv) in &progs {
+        let b = build(p);
+        let Ok(f) = evalkit::build::<F>(&b.ctx, &b.roots) else { continue };
+        let val = |l: usize, v: usize| -> f32 { 0.25 * l as f32 - 1.0 + v as f32 * 0.5 };
+        for extra in 0..3usize {
+            let desc = || json!({"program": name, "backend": F::NAME, "variables": nv, "extra_arguments": extra});
+            macro_rules! ok_case {
+                ($what:expr, $body:expr) => {{
+                    let s = *sub;
+                    *sub += 1;
+                    if cx.case(s) {
+                        cx.add("cases", 1);
+                        cx.add("valid_unusual_argument_cases", 1);
+                        cx.add("evals", 1);
+                        match guard(|| $body) {
+                            Ok(Ok(())) => (),
+                            Ok(Err(m)) => cx.violation(format!("{} {}: valid argument list rejected or wrong result", F::NAME, $what), desc(), m),
+                            Err(e) => cx.violation(format!("{} {}: panicked on a valid argument list {}", F::NAME, $what, panic_site(&e)), desc(), e),
+                        }
+                    }
+                }};
+            }
+            ok_case!("point eval with extra arguments", {
+                let t = f.point_tape(Default::default());
+                let base: Vec<f32> = (0..*nv).map(|v| val(3, v)).collect();
+                let mut more = base.clone();
+                more.extend(std::iter::repeat(9.0).take(extra));
+                let want = F::new_point_eval().eval(&t, &base).map(|(o, _)| o.to_vec()).map_err(|e| format!("{e:?}"))?;
+                let got = F::new_point_eval().eval(&t, &more).map(|(o, _)| o.to_vec()).map_err(|e| format!("rejected: {e:?}"))?;
+                if got.iter().map(|v| v.to_bits()).eq(want.iter().map(|v| v.to_bits())) { Ok(()) } else { Err(format!("{got:?} vs {want:?}")) }
+            });
+            ok_case!("interval eval with extra arguments", {
+                let t = f.interval_tape(Default::default());
+                let base: Vec<Interval> = (0..*nv).map(|v| Interval::new(val(1, v), val(4, v))).collect();
+                let mut more = base.clone();
+                more.extend(std::iter::repeat(Interval::new(-1.0, 1.0)).take(extra));
+                let want = F::new_interval_eval().eval(&t, &base).map(|(o, _)| o.to_vec()).map_err(|e| format!("{e:?}"))?;
+                let got = F::new_interval_eval().eval(&t, &more).map(|(o, _)| o.to_vec()).map_err(|e| format!("rejected: {e:?}"))?;
+                if got == want { Ok(()) } else { Err(format!("{got:?} vs {want:?}")) }
+            });
+            for n in [1usize, 3, 7, 8, 9, 17] {
+                ok_case!(format!("float-slice eval of {n} samples with extra slices"), {
+                    let t = f.float_slice_tape(Default::default());
+                    let base: Vec<Vec<f32>> = (0..*nv).map(|v| (0..n).map(|l| val(l, v)).collect()).collect();
+                    let mut more = base.clone();
+                    more.extend(std::iter::repeat(vec![9.0f32; n]).take(extra));
+                    let got = F::new_float_slice_eval().eval(&t, &more).map(|o| o[0].to_vec()).map_err(|e| format!("rejected: {e:?}"))?;
+                    // expected: the point evaluator sample by sample
+                    let pt = f.point_tape(Default::default());
+                    let mut pe = F::new_point_eval();
+                    if *nv == 0 && extra == 0 {
+                        return Ok(()); // no slice conveys the sample count
+                    }
+                    if got.len() != n {
+                        return Err(format!("{} results for {n} samples", got.len()));
+                    }
+                    for l in 0..n {
+                        let args: Vec<f32> = (0..*nv).map(|v| val(l, v)).collect();
+                        let w = pe.eval(&pt, &args).map_err(|e| format!("{e:?}"))?.0[0];
+                        if w.to_bits() != got[l].to_bits() {
+                            return Err(format!("sample {l}: {} vs {w}", got[l]));
+                        }
+                    }
+                    Ok(())
+                });
+                ok_case!(format!("grad-slice eval of {n} samples with extra slices"), {
+                    let t = f.grad_slice_tape(Default::default());
+                    let base: Vec<Vec<Grad>> = (0..*nv).map(|v| (0..n).map(|l| Grad::new(val(l, v), 1.0, 0.0, 0.0)).collect()).collect();
+                    let mut more = base.clone();
+                    more.extend(std::iter::repeat(vec![Grad::new(9.0, 0.0, 1.0, 0.0); n]).take(extra));
+                    let got = F::new_grad_slice_eval().eval(&t, &more).map(|o| o[0].to_vec()).map_err(|e| format!("rejected: {e:?}"))?;
+                    if *nv == 0 && extra == 0 {
+                        return Ok(()); // no slice conveys the sample count
+                    }
+                    if got.len() != n {
+                        return Err(format!("{} results for {n} samples", got.len()));
+                    }
+                    let pt = f.point_tape(Default::default());
+                    let mut pe = F::new_point_eval();
+                    for l in 0..n {
+                        let args: Vec<f32> = (0..*nv).map(|v| val(l, v)).collect();
+                        let w = pe.eval(&pt, &args).map_err(|e| format!("{e:?}"))?.0[0];
+                        if w.to_bits() != got[l].v.to_bits() {
+                            return Err(format!("sample {l}: {} vs {w}", got[l].v));
+                        }
+                    }
+                    Ok(())
+                });
+            }
+        }
+        // Shape API: x, y, z are always passed, whatever the function uses
+        let shape = Shape::new_raw(f);
+        let desc = || json!({"program": name, "backend": F::NAME, "variables": nv, "api": "Shape"});
+        for n in [1usize, 3, 7, 8, 9, 17] {
+            let s = *sub;
+            *sub += 1;
+            if !cx.case(s) {
+                continue;
+            }
+            cx.add("cases", 1);
+            cx.add("valid_unusual_argument_cases", 1);
+            cx.add("evals", 2);
+            let r = guard(|| -> Result<(), String> {
+                let (xs, ys, zs): (Vec<f32>, Vec<f32>, Vec<f32>) =
+                    ((0..n).map(|l| val(l, 0)).collect(), (0..n).map(|l| val(l, 1)).collect(), (0..n).map(|l| val(l, 2)).collect());
+                let t = shape.ez_float_slice_tape();
+                let got = Shape::<F>::new_float_slice_eval().eval(&t, &xs, &ys, &zs).map(|o| o.to_vec()).map_err(|e| format!("rejected: {e}"))?;
+                if got.len() != n {
+                    return Err(format!("float-slice: {} results for {n} samples", got.len()));
+                }
+                let pt = shape.ez_point_tape();
+                let mut pe = Shape::<F>::new_point_eval();
+                for l in 0..n {
+                    let w = pe.eval(&pt, xs[l], ys[l], zs[l]).map_err(|e| format!("{e}"))?.0;
+                    if w.to_bits() != got[l].to_bits() {
+                        return Err(format!("float-slice sample {l}: {} vs {w}", got[l]));
+                    }
+                }
+                let gt = shape.ez_grad_slice_tape();
+                let g = |v: &Vec<f32>, k: usize| -> Vec<Grad> { v.iter().map(|x| Grad::new(*x, (k == 0) as u8 as f32, (k == 1) as u8 as f32, (k == 2) as u8 as f32)).collect() };
+                let gg = Shape::<F>::new_grad_slice_eval().eval(&gt, &g(&xs, 0), &g(&ys, 1), &g(&zs, 2)).map(|o| o.to_vec()).map_err(|e| format!("rejected: {e}"))?;
+                if gg.len() != n {
+                    return Err(format!("grad-slice: {} results for {n} samples", gg.len()));
+                }
+                Ok(())
+            });
+            match r {
+                Ok(Ok(())) => (),
+                Ok(Err(m)) => cx.violation(format!("{} shape bulk eval: valid call rejected or wrong result", F::NAME), desc(), format!("{n} samples: {m}")),
+                Err(e) => cx.violation(format!("{} shape bulk eval: panicked on a valid call {}", F::NAME, panic_site(&e)), desc(), e),
+            }
+        }
     }
 }
 
@@ -744,6 +936,8 @@ impl Check for C11 {
             Unit::Malformed => {
                 malformed::<VmFunction>(cx, &mut sub);
                 malformed::<JitFunction>(cx, &mut sub);
+                generous::<VmFunction>(cx, &mut sub);
+                generous::<JitFunction>(cx, &mut sub);
             }
             Unit::Transform(jit) => {
                 if jit {
